@@ -19,6 +19,19 @@
 // step is attributed to a listed defect only by what THAT step did (clock before the last block; died in the
 // window; its block save was the write made to fail); any other dropped batch is a violation.  Writes cases_C11.v for Check/ReaperCheck.v + result.json.
 //
+// Further items: a produce step whose ExecuteTxs call returns an error once (Item.X: a transient failure of the
+// execution layer; the model's IExecFail), and a produce step DURING which a complete Reaper.SubmitTxs runs (Item.Mid = p:
+// after the first p acts of the step — datastore write attempts and the ExecuteTxs call —, fired from hooks in the
+// datastore stack, the execution-layer double and the sequencer wrapper on the producer's own goroutine, i.e. at a
+// point where the producer holds no lock: right after GetNextBatch has answered, after the cursor write, after the
+// early block save, after ExecuteTxs, ...; the model's IMid).  Further oracle clauses: every hand-off the sequencer
+// accepted (its queue record became durable) is released in acceptance order — a second time only after its record's
+// Delete was made to fail —; a batch dropped by a step that died AFTER it had called ExecuteTxs is not attributed to
+// the listed crash window (that window ends at the early block save, which precedes the call).
+// Streams (gen): restarts while batches wait (genBacklog), reaps inside produce steps and failing executions
+// (genConc), ONE hand-off of L-1 .. 3L+1 transactions for count limits L up to 1024 against an almost full queue
+// (genCount; pool ids from manyFirst, printed to Coq as ranges), the size-boundary stream, the generic mix.
+//
 // Size-boundary stream (Cfg.Lim > 0, every 6th generated case + one corpus file): the pool also holds transactions of
 // Lim/15 .. Lim+1 bytes (Lim = 1 500 000 mostly; also 1 MiB, 1 MB, 2 MB, 64*64*482), arranged so that ONE hand-off
 // totals Lim-1, Lim, Lim+1, Lim + a few bytes, or a multiple of Lim; the block that takes such a batch is followed by a
@@ -115,14 +128,25 @@ func fillFast(b []byte, x uint64) {
 // attempted) still reaches the execution layer.
 // Fault: write attempt number K (from 0) of this boot/reap/produce returns an error; nothing of it reaches the
 // datastore; the process lives on and every later write succeeds (K >= the number of attempts: no fault).
+// X (produce only): the ExecuteTxs call of this step returns an error once (a transient failure of the execution
+// layer); the process lives on.
+// Mid = p >= 1 (produce only): the reaper's SubmitTxs runs to completion DURING this step (reaper loop and aggregation
+// loop are two goroutines), after the first p acts of the step (act = a datastore write attempt or the ExecuteTxs
+// call; p = 1 after a batch was taken: right after GetNextBatch has answered); E: as late as possible (just before act
+// number p starts) instead of as early as possible (right after act number p-1 has returned) — the same point for
+// the model, two points of the code.  p >= the number of acts: right after the step.
+// N (arrive only): N > 1 = the transactions Tx, Tx+1, ..., Tx+N-1 arrive, in this order.
 type Item struct {
 	T     string `json:"t"`
 	Tx    int    `json:"tx,omitempty"` // arrive: pool id (>= 1)
+	N     int    `json:"n,omitempty"`
 	Ts    int64  `json:"ts,omitempty"` // produce: the sequencer's clock reading, ms after the base instant
 	Crash bool   `json:"crash,omitempty"`
 	Fault bool   `json:"fault,omitempty"`
 	K     int    `json:"k,omitempty"`
 	E     bool   `json:"e,omitempty"`
+	X     bool   `json:"x,omitempty"`
+	Mid   int    `json:"mid,omitempty"`
 }
 
 type Replay struct {
@@ -151,16 +175,43 @@ type countds struct {
 	ds.Batching
 	mu       sync.Mutex
 	attempts int
+	w        *World // for the mid-step reap (Item.Mid)
 }
 
 func (c *countds) bump() { c.mu.Lock(); c.attempts++; c.mu.Unlock() }
+
+// the queue's writes are made under the queue's mutex (queue.go AddBatch / Next): no reap can run there
+func underQueueLock(k ds.Key) bool { return strings.HasPrefix(k.String(), "/batches/") }
+
 func (c *countds) Put(ctx context.Context, k ds.Key, v []byte) error {
+	if c.w != nil && !underQueueLock(k) {
+		c.w.midPre()
+	}
 	c.bump()
-	return c.Batching.Put(ctx, k, v)
+	err := c.Batching.Put(ctx, k, v)
+	if c.w != nil {
+		if underQueueLock(k) {
+			c.w.midCountOnly()
+		} else {
+			c.w.midPost()
+		}
+	}
+	return err
 }
 func (c *countds) Delete(ctx context.Context, k ds.Key) error {
+	if c.w != nil && !underQueueLock(k) {
+		c.w.midPre()
+	}
 	c.bump()
-	return c.Batching.Delete(ctx, k)
+	err := c.Batching.Delete(ctx, k)
+	if c.w != nil {
+		if underQueueLock(k) {
+			c.w.midCountOnly()
+		} else {
+			c.w.midPost()
+		}
+	}
+	return err
 }
 
 type countBatch struct {
@@ -175,17 +226,31 @@ func (c *countds) Batch(ctx context.Context) (ds.Batch, error) {
 	}
 	return &countBatch{Batch: b, c: c}, nil
 }
-func (b *countBatch) Commit(ctx context.Context) error { b.c.bump(); return b.Batch.Commit(ctx) }
+func (b *countBatch) Commit(ctx context.Context) error {
+	if b.c.w != nil {
+		b.c.w.midPre()
+	}
+	b.c.bump()
+	err := b.Batch.Commit(ctx)
+	if b.c.w != nil {
+		b.c.w.midPost()
+	}
+	return err
+}
 
 // ---- doubles -----------------------------------------------------------------------------------------
 
 // mempool: the execution layer.  It survives the node's crashes (it is another process).
 type mempool struct {
-	w     *World
-	txs   []int   // pool ids, arrival order
-	taken [][]int // what each GetTxs call returned (calls by a live process only)
-	execs int
+	w        *World
+	txs      []int   // pool ids, arrival order
+	taken    [][]int // what each GetTxs call returned (calls by a live process only)
+	execs    int
+	failNext bool // the next ExecuteTxs call returns errExec (Item.X)
+	failed   int  // calls that were made to fail
 }
+
+var errExec = errors.New("mempool double: injected ExecuteTxs failure")
 
 var _ coreexecutor.Executor = (*mempool)(nil)
 
@@ -211,6 +276,13 @@ func (m *mempool) ExecuteTxs(ctx context.Context, txs [][]byte, blockHeight uint
 		}
 		m.w.execAfterDeathUsed = true
 	}
+	m.w.midPre() // a reap scheduled just before this call
+	if m.failNext {
+		m.failNext = false
+		m.failed++
+		m.w.midPost()
+		return nil, 0, errExec
+	}
 	m.execs++
 	h := sha256.New()
 	h.Write(prevStateRoot)
@@ -220,20 +292,18 @@ func (m *mempool) ExecuteTxs(ctx context.Context, txs [][]byte, blockHeight uint
 		h.Write(l[:])
 		h.Write(tx)
 	}
-	ids := m.w.txIDs(txs)
+	gone := map[int]bool{}
+	for _, x := range m.w.txIDs(txs) {
+		gone[x] = true
+	}
 	keep := m.txs[:0:0]
 	for _, id := range m.txs {
-		gone := false
-		for _, x := range ids {
-			if x == id {
-				gone = true
-			}
-		}
-		if !gone {
+		if !gone[id] {
 			keep = append(keep, id)
 		}
 	}
 	m.txs = keep
+	m.w.midPost() // a reap scheduled right after this call
 	return h.Sum(nil), 1 << 20, nil
 }
 func (m *mempool) SetFinal(ctx context.Context, blockHeight uint64) error { return nil }
@@ -259,6 +329,7 @@ func (s *clockSeq) GetNextBatch(ctx context.Context, req coresequencer.GetNextBa
 		// what the manager really gets (oracle bookkeeping; the response is not altered)
 		s.w.handed, s.w.handedSet = s.w.txIDs(res.Batch.Transactions), true
 	}
+	s.w.midAt() // a reap scheduled right after the sequencer's answer (before the manager looks at it)
 	return res, err
 }
 func (s *clockSeq) VerifyBatch(ctx context.Context, req coresequencer.VerifyBatchRequest) (*coresequencer.VerifyBatchResponse, error) {
@@ -293,6 +364,15 @@ type World struct {
 	execAfterDeathUsed bool
 	attemptsAtDeath    int
 
+	// a reap in the middle of a produce step (Item.Mid)
+	midActive bool
+	midP      int  // the reap runs after this many acts of the step
+	midLate   bool // just before act number midP starts (else: right after act number midP-1 has returned)
+	midCount  int  // acts of the step so far
+	midFired  bool
+	inReap    bool
+	idOf      map[string]int // bytes -> pool id
+
 	// bookkeeping for the oracle
 	batchOfKey map[string][]int // /batches key -> contents
 	released   []release
@@ -301,6 +381,7 @@ type World struct {
 	faults     int             // write faults that fired
 	staleKeys  map[string]bool // /batches records whose Delete was made to fail: handed out by the running process, still on disk
 	handed     []int           // the transactions of the last GetNextBatch response
+	accepted   [][]int         // the hand-offs whose queue record became durable, in that order
 	handedSet  bool            // GetNextBatch answered (without error) since the flag was cleared
 	or         oracle
 }
@@ -315,8 +396,48 @@ type release struct {
 	item      int
 	txs       []int
 	regress   bool // the clock reading of the releasing step was before the last block's time
-	lostWin   bool // the releasing step died after the delete and before a block save
+	lostWin   bool // the releasing step died after the delete and before a block save — and before it called ExecuteTxs
 	faultSave bool // the releasing step's block save was made to fail and it saved no block
+	kept      bool // the Delete of the batch's queue record was made to fail: the record is loaded again by the next start-up
+}
+
+// the mid-step reap: hooks called by the datastore stack, the execution-layer double and the sequencer wrapper
+func (w *World) midFire() {
+	w.midFired, w.inReap = true, true
+	w.nd.reaper.SubmitTxs()
+	w.inReap = false
+}
+
+// midPre: an act of the produce step (a write attempt outside the queue's lock, the ExecuteTxs call) is about to start
+func (w *World) midPre() {
+	if w.midActive && !w.inReap && !w.midFired && w.midLate && w.midCount == w.midP {
+		w.midFire()
+	}
+}
+
+// midPost: that act has returned
+func (w *World) midPost() {
+	if !w.midActive || w.inReap {
+		return
+	}
+	w.midCount++
+	if !w.midFired && !w.midLate && w.midCount == w.midP {
+		w.midFire()
+	}
+}
+
+// midCountOnly: an act made under the queue's lock (the Delete of Next) has returned
+func (w *World) midCountOnly() {
+	if w.midActive && !w.inReap {
+		w.midCount++
+	}
+}
+
+// midAt: GetNextBatch has answered
+func (w *World) midAt() {
+	if w.midActive && !w.inReap && !w.midFired && w.midCount == w.midP {
+		w.midFire()
+	}
 }
 
 var logger = func() logging.EventLogger {
@@ -326,8 +447,12 @@ var logger = func() logging.EventLogger {
 	return l
 }()
 
-func NewWorld(r *mrand.Rand, cfg Cfg) (*World, error) {
-	w := &World{Cfg: cfg, ctx: context.Background(), hashID: map[string]int{}, batchOfKey: map[string][]int{}, staleKeys: map[string]bool{}, maxTs: cfg.GOff, now: cfg.GOff}
+// manyFirst: first pool id of the "many small transactions" (8 bytes each, made on demand up to the largest id a
+// history uses): hand-offs of hundreds or thousands of transactions, backlogs of many batches.
+const manyFirst = 100
+
+func NewWorld(r *mrand.Rand, cfg Cfg, maxID int) (*World, error) {
+	w := &World{Cfg: cfg, ctx: context.Background(), hashID: map[string]int{}, idOf: map[string]int{}, batchOfKey: map[string][]int{}, staleKeys: map[string]bool{}, maxTs: cfg.GOff, now: cfg.GOff}
 	w.Pool = make([][]byte, poolSize+1)
 	seen := map[string]bool{}
 	for i := 1; i <= poolSize; i++ {
@@ -364,6 +489,24 @@ func NewWorld(r *mrand.Rand, cfg Cfg) (*World, error) {
 			w.hashID[hex.EncodeToString(h[:])] = bigFirst + k
 		}
 	}
+	if maxID >= manyFirst {
+		x := r.Uint64() | 1
+		for id := len(w.Pool); id <= maxID; id++ {
+			b := make([]byte, 8)
+			b[0] = 0xC7
+			binary.BigEndian.PutUint32(b[1:5], uint32(id))
+			x ^= x >> 12
+			x ^= x << 25
+			x ^= x >> 27
+			b[5], b[6], b[7] = byte(x>>8), byte(x>>24), byte(x>>40)
+			w.Pool = append(w.Pool, b) // distinct by the id inside; ids between the fixed pool and manyFirst are never used
+			h := sha256.Sum256(b)
+			w.hashID[hex.EncodeToString(h[:])] = id
+		}
+	}
+	for id := len(w.Pool) - 1; id >= 1; id-- { // the smallest id wins (all bytes are distinct anyway)
+		w.idOf[string(w.Pool[id])] = id
+	}
 	priv, _, err := crypto.GenerateEd25519Key(rand.Reader)
 	if err != nil {
 		return nil, err
@@ -385,7 +528,7 @@ func NewWorld(r *mrand.Rand, cfg Cfg) (*World, error) {
 	w.RootDir = dir
 	w.DS = crashds.New()
 	w.flt = newFaultDS(w.DS)
-	w.cnt = &countds{Batching: w.flt}
+	w.cnt = &countds{Batching: w.flt, w: w}
 	// node/full.go:87: mainKV := newPrefixKV(database, RollkitPrefix)
 	w.mainKV = ktds.Wrap(w.cnt, ktds.PrefixTransform{Prefix: ds.NewKey(node.RollkitPrefix)})
 	w.mem = &mempool{w: w}
@@ -399,12 +542,9 @@ func (w *World) dead() bool { return w.DS.FailAfter >= 0 && w.DS.Len() >= w.DS.F
 func (w *World) txIDs(txs [][]byte) []int {
 	out := make([]int, 0, len(txs))
 	for _, t := range txs {
-		id := 999999
-		for i := 1; i < len(w.Pool); i++ {
-			if bytes.Equal(w.Pool[i], t) {
-				id = i
-				break
-			}
+		id, ok := w.idOf[string(t)]
+		if !ok {
+			id = 999999
 		}
 		out = append(out, id)
 	}
@@ -538,6 +678,9 @@ func (w *World) Run(idx int, it Item) (obs Obs) {
 	}()
 	if it.T == "arrive" {
 		w.mem.txs = append(w.mem.txs, it.Tx)
+		for i := 1; i < it.N; i++ {
+			w.mem.txs = append(w.mem.txs, it.Tx+i)
+		}
 		return Obs{Res: "arrived"}
 	}
 	start := w.DS.Len()
@@ -600,7 +743,19 @@ func (w *World) Run(idx int, it Item) (obs Obs) {
 		last, haveLast := w.lastBlockTime()
 		before, _ := w.Store().Height(w.ctx)
 		w.handed, w.handedSet = nil, false
+		execsBefore := w.mem.execs
+		w.mem.failNext = it.X
+		if it.Mid > 0 {
+			w.midActive, w.midP, w.midLate, w.midCount, w.midFired = true, it.Mid, it.E, 0, false
+		}
 		err := w.nd.m.VerifPublishBlock(w.ctx)
+		w.mem.failNext = false
+		if it.Mid > 0 {
+			w.midActive = false
+			if !w.midFired { // the step made fewer acts: the reap follows it
+				w.nd.reaper.SubmitTxs()
+			}
+		}
 		disarm()
 		after, _ := w.Store().Height(w.ctx)
 		switch {
@@ -612,6 +767,8 @@ func (w *World) Run(idx int, it Item) (obs Obs) {
 			obs.Res, obs.ErrTxt = "e-time", err.Error()
 		case err != nil && failed != nil && errors.Is(err, ErrFault):
 			obs.Res, obs.ErrTxt = "e-store", err.Error() // the step returned the injected write error
+		case err != nil && it.X && errors.Is(err, errExec) && strings.Contains(err.Error(), "error applying block"):
+			obs.Res, obs.ErrTxt = "e-exec", err.Error() // the step returned the error of ExecuteTxs
 		case err != nil && strings.Contains(err.Error(), "failed to validate block"):
 			obs.Res, obs.ErrTxt = "e-validate", err.Error()
 		default:
@@ -641,8 +798,12 @@ func (w *World) Run(idx int, it Item) (obs Obs) {
 			hasDel, del = true, w.handed
 		}
 		if hasDel {
-			w.released = append(w.released, release{item: idx, txs: del, regress: haveLast && it.Ts < last, lostWin: it.Crash && !hasBlock,
-				faultSave: failed != nil && failed.K == "block" && !hasBlock})
+			// the listed crash window lies between the queue Delete and the early block save, BEFORE the executor is
+			// called: a step that died with the batch in hand after it had called ExecuteTxs is not in it
+			w.released = append(w.released, release{item: idx, txs: del, regress: haveLast && it.Ts < last,
+				lostWin:   it.Crash && !hasBlock && w.mem.execs == execsBefore,
+				faultSave: failed != nil && failed.K == "block" && !hasBlock,
+				kept:      failed != nil && failed.K == "qdel"})
 		}
 	default:
 		panic("bad item " + it.T)
@@ -660,7 +821,11 @@ func (w *World) Run(idx int, it Item) (obs Obs) {
 		if failed != nil && i == it.K {
 			obs.Writes = append(obs.Writes, *failed)
 		}
-		obs.Writes = append(obs.Writes, w.shapeOf(wr))
+		sh := w.shapeOf(wr)
+		if sh.K == "qput" {
+			w.accepted = append(w.accepted, sh.Txs)
+		}
+		obs.Writes = append(obs.Writes, sh)
 	}
 	if failed != nil && len(w.DS.Log[start:]) <= it.K {
 		obs.Writes = append(obs.Writes, *failed)
@@ -866,6 +1031,34 @@ func (w *World) judge(f Final, quiesced bool) {
 			w.or.fail("released-batch-not-included", fmt.Sprintf("item %d: released batch %v is in no committed block", r.item, r.txs), r.item)
 		}
 	}
+	// (2b) hand-off order, end to end: every hand-off the sequencing layer accepted (its record became durable) is
+	// released, in the order of acceptance; a batch is released a second time only if the Delete of its record was made
+	// to fail (the record is loaded again by the next start-up)
+	ai, orderOK := 0, true
+	for ri, r := range w.released {
+		if ai < len(w.accepted) && eqInts(w.accepted[ai], r.txs) {
+			ai++
+			continue
+		}
+		again := false
+		for _, x := range w.released[:ri] {
+			if x.kept && eqInts(x.txs, r.txs) {
+				again = true
+			}
+		}
+		if !again {
+			next := "none"
+			if ai < len(w.accepted) {
+				next = fmt.Sprint(w.accepted[ai])
+			}
+			w.or.fail("released-not-in-acceptance-order", fmt.Sprintf("item %d: the sequencer released %v, but the oldest accepted hand-off not yet released is %s (accepted, in order: %v; released: %v)", r.item, r.txs, next, w.accepted, f.Released), r.item)
+			orderOK = false
+			break
+		}
+	}
+	if orderOK && ai < len(w.accepted) {
+		w.or.fail("accepted-hand-off-never-released", fmt.Sprintf("the hand-off %v was accepted by the sequencer (record durable, transactions marked seen) but never released although the queue is drained (accepted: %v; released: %v)", w.accepted[ai], w.accepted, f.Released), -1)
+	}
 	// (1) no loss: every transaction GetTxs returned is in a committed block
 	for _, t := range f.Taken {
 		if count[t] > 0 {
@@ -920,7 +1113,15 @@ type caseRun struct {
 }
 
 func runCase(seed int64, c int, cfg Cfg, hist []Item) (*caseRun, error) {
-	w, err := NewWorld(caseRng(seed, c+7777), cfg)
+	maxID := 0
+	for _, it := range hist {
+		if it.T == "arrive" {
+			if hi := it.Tx + it.N; hi > maxID {
+				maxID = hi
+			}
+		}
+	}
+	w, err := NewWorld(caseRng(seed, c+7777), cfg, maxID)
 	if err != nil {
 		return nil, err
 	}
@@ -960,15 +1161,64 @@ func runCase(seed int64, c int, cfg Cfg, hist []Item) (*caseRun, error) {
 
 // ---- Coq printing -----------------------------------------------------------------------------------------------
 
+// txsCoq prints a list of ids; a run of 6 or more consecutive ids is printed as (rng first count) — Check/ReaperCheck.v.
 func txsCoq(txs []int) string {
 	if len(txs) == 0 {
 		return "[]"
 	}
-	p := make([]string, len(txs))
-	for i, t := range txs {
-		p[i] = fmt.Sprint(t)
+	var segs []string
+	var lit []string
+	flush := func() {
+		if len(lit) > 0 {
+			segs = append(segs, "["+strings.Join(lit, ";")+"]%N")
+			lit = nil
+		}
 	}
-	return "[" + strings.Join(p, ";") + "]%N"
+	for i := 0; i < len(txs); {
+		j := i + 1
+		for j < len(txs) && txs[j] == txs[j-1]+1 {
+			j++
+		}
+		if j-i >= 6 {
+			flush()
+			segs = append(segs, fmt.Sprintf("rng %d %d", txs[i], j-i))
+		} else {
+			for k := i; k < j; k++ {
+				lit = append(lit, fmt.Sprint(txs[k]))
+			}
+		}
+		i = j
+	}
+	flush()
+	if len(segs) == 1 && strings.HasPrefix(segs[0], "[") {
+		return segs[0]
+	}
+	return "(" + strings.Join(segs, " ++ ") + ")"
+}
+
+// segList joins list segments: literal elements are collected into [..] lists, whole-list expressions stand alone.
+type segList struct {
+	segs []string
+	lit  []string
+}
+
+func (l *segList) elem(e string) { l.lit = append(l.lit, e) }
+func (l *segList) list(e string) {
+	if len(l.lit) > 0 {
+		l.segs = append(l.segs, vgen.List(l.lit))
+		l.lit = nil
+	}
+	l.segs = append(l.segs, e)
+}
+func (l *segList) String() string {
+	if len(l.lit) > 0 || len(l.segs) == 0 {
+		l.segs = append(l.segs, vgen.List(l.lit))
+		l.lit = nil
+	}
+	if len(l.segs) == 1 {
+		return l.segs[0]
+	}
+	return "(" + strings.Join(l.segs, " ++ ") + ")"
 }
 
 func batchesCoq(bs [][]int) string {
@@ -1000,6 +1250,12 @@ func itemCoq(it Item) string {
 		}
 		return "IRun AReap"
 	case "produce":
+		if it.X {
+			return fmt.Sprintf("IExecFail %s", vgen.Z(it.Ts))
+		}
+		if it.Mid > 0 {
+			return fmt.Sprintf("IMid %s %d", vgen.Z(it.Ts), it.Mid-1)
+		}
 		if it.Fault {
 			return fmt.Sprintf("IFault (AProduce %s) %d", vgen.Z(it.Ts), it.K)
 		}
@@ -1012,7 +1268,7 @@ func itemCoq(it Item) string {
 }
 
 var resCode = map[string]int{"arrived": 0, "boot-ok": 1, "reaped": 2, "committed": 3, "skipped": 4, "e-time": 5, "not-running": 6, "crashed": 7,
-	"e-store": 9, "e-validate": 10, "boot-fail": 11}
+	"e-store": 9, "e-validate": 10, "boot-fail": 11, "e-exec": 12}
 
 func shapeCoq(s Shape) string {
 	if s.Failed {
@@ -1043,11 +1299,21 @@ func (o Obs) coq() string {
 	if !ok {
 		code = 99
 	}
-	sh := make([]string, len(o.Writes))
-	for i, s := range o.Writes {
-		sh[i] = shapeCoq(s)
+	var sl segList
+	for i := 0; i < len(o.Writes); {
+		j := i
+		for j < len(o.Writes) && o.Writes[j].K == "seen" && !o.Writes[j].Failed && o.Writes[j].Tx == o.Writes[i].Tx+(j-i) {
+			j++
+		}
+		if j-i >= 6 { // a run of marks of consecutive ids
+			sl.list(fmt.Sprintf("seens %d %d", o.Writes[i].Tx, j-i))
+			i = j
+			continue
+		}
+		sl.elem(shapeCoq(o.Writes[i]))
+		i++
 	}
-	return fmt.Sprintf("(%d%%N, %s)", code, vgen.List(sh))
+	return fmt.Sprintf("(%d%%N, %s)", code, sl.String())
 }
 
 func (f Final) coq() string {
@@ -1060,20 +1326,30 @@ func (f Final) coq() string {
 }
 
 func caseCoq(cfg Cfg, cr *caseRun) string {
-	items := make([]string, len(cr.hist))
+	var items, obs segList
 	for i, it := range cr.hist {
-		items[i] = itemCoq(it)
+		if it.T == "arrive" && it.N > 1 { // N arrivals = N items of the model
+			items.list(fmt.Sprintf("arrivals %d %d", it.Tx, it.N))
+			obs.list(fmt.Sprintf("arr_obs %d", it.N))
+			continue
+		}
+		items.elem(itemCoq(it))
+		obs.elem(cr.obs[i].coq())
 	}
-	obs := make([]string, len(cr.obs))
-	for i, o := range cr.obs {
-		obs[i] = o.coq()
-	}
-	return fmt.Sprintf("mk_case %d%%N %s %s %s (%s)", cfg.Max, vgen.Z(cfg.GOff), vgen.List(items), vgen.List(obs), cr.fin.coq())
+	return fmt.Sprintf("mk_case %d%%N %s %s %s (%s)", cfg.Max, vgen.Z(cfg.GOff), items.String(), obs.String(), cr.fin.coq())
 }
 
 // ---- generator ---------------------------------------------------------------------------------------------------
 
 func gen(r *mrand.Rand, tier string, c int) (Cfg, []Item) {
+	switch c % 12 {
+	case 1: // restarts while accepted batches wait, then further hand-offs, then restarts again
+		return genBacklog(r, tier)
+	case 5: // reaps in the middle of produce steps, failing ExecuteTxs calls
+		return genConc(r, tier)
+	case 7: // one hand-off of very many transactions against a queue that is almost full
+		return genCount(r, tier)
+	}
 	if c%6 == 3 { // the size-boundary stream
 		if r.Intn(10) < 7 {
 			return genBig(r, tier)
@@ -1106,6 +1382,8 @@ func genMix(r *mrand.Rand, tier string, lim int64, order []int) (Cfg, []Item) {
 	regressPct := []int{0, 0, 0, 8}[r.Intn(4)]            // a quarter of the cases let the clock step back
 	dupPct := []int{0, 5, 25}[r.Intn(3)]                  // repeats of bytes that arrived before
 	faultPct := []int{0, 0, 0, 12, 24}[r.Intn(5)]         // transient write faults (30% of the cases have neither crash nor fault)
+	execPct := []int{0, 0, 0, 10}[r.Intn(4)]              // a quarter of the cases: ExecuteTxs calls that fail
+	midPct := []int{0, 0, 10, 25}[r.Intn(4)]              // half of the cases: reaps in the middle of produce steps
 	produceK := []int{0, 0, 1, 1, 1, 2, 2, 3, 3, 4, 5, 6} // the write attempt of a produce that fails: every one of its writes, the early ones more often
 	freshNext := 0
 	var arrived []int
@@ -1163,6 +1441,10 @@ func genMix(r *mrand.Rand, tier string, lim int64, order []int) (Cfg, []Item) {
 				it.Crash, it.K, it.E = true, r.Intn(8), r.Intn(2) == 0
 			} else if r.Intn(100) < faultPct {
 				it.Fault, it.K = true, produceK[r.Intn(len(produceK))]
+			} else if r.Intn(100) < execPct {
+				it.X = true
+			} else if r.Intn(100) < midPct {
+				it.Mid, it.E = midPoints[r.Intn(len(midPoints))], r.Intn(2) == 0
 			}
 			h = append(h, it)
 		default:
@@ -1174,6 +1456,180 @@ func genMix(r *mrand.Rand, tier string, lim int64, order []int) (Cfg, []Item) {
 			}
 			down = it.Crash || it.Fault // a start-up whose write fails leaves no process
 			h = append(h, it)
+		}
+	}
+	return cfg, h
+}
+
+// the point of a produce step at which a concurrent reap runs: after the sequencer's answer most often
+var midPoints = []int{1, 1, 1, 1, 2, 2, 3, 4, 5, 6, 7, 8}
+
+// ---- restarts while batches wait -----------------------------------------------------------------------------------
+
+// genBacklog: reaping outpaces block production (a stalled or slow producer) and the node is restarted while accepted
+// batches wait: 2..4 (thorough: ..6) lives, each = 1..4 hand-offs of 1..3 fresh transactions (ids from manyFirst),
+// fewer produces than batches waiting (so that some are taken and some stay), and an end: clean restart (55%), a crash
+// in a reap / produce / start-up followed by a start-up (30%), nothing (15%).  Then the drain.
+func genBacklog(r *mrand.Rand, tier string) (Cfg, []Item) {
+	cfg := Cfg{Max: []int{0, 0, 1000, 5, 4, 3}[r.Intn(6)], GOff: int64(r.Intn(3)) * 2500}
+	cur := cfg.GOff
+	tick := func() int64 { cur += int64(1 + r.Intn(3000)); return cur }
+	next := manyFirst
+	h := []Item{{T: "boot"}}
+	if r.Intn(4) > 0 {
+		h = append(h, Item{T: "produce", Ts: tick()})
+	}
+	lives := 2 + r.Intn(3)
+	if tier == "thorough" {
+		lives = 2 + r.Intn(5)
+	}
+	waiting := 0
+	for l := 0; l < lives; l++ {
+		a := 1 + r.Intn(4)
+		for i := 0; i < a; i++ {
+			n := 1 + r.Intn(3)
+			h = append(h, Item{T: "arrive", Tx: next, N: n})
+			next += n
+			if r.Intn(8) == 0 && next > manyFirst+2 { // bytes that arrived before (already seen: not handed off again)
+				h = append(h, Item{T: "arrive", Tx: manyFirst + r.Intn(next-manyFirst)})
+			}
+			h = append(h, Item{T: "reap"})
+			waiting++
+			if r.Intn(5) == 0 {
+				h = append(h, Item{T: "produce", Ts: tick()})
+				if waiting > 0 {
+					waiting--
+				}
+			}
+		}
+		t := 0
+		if waiting > 1 {
+			t = r.Intn(waiting) // at least one batch stays behind
+		}
+		for i := 0; i < t; i++ {
+			h = append(h, Item{T: "produce", Ts: tick()})
+			waiting--
+		}
+		switch y := r.Intn(100); {
+		case y < 55:
+			h = append(h, Item{T: "boot"})
+		case y < 65:
+			h = append(h, Item{T: "arrive", Tx: next}, Item{T: "reap", Crash: true, K: r.Intn(4)}, Item{T: "boot"})
+			next++
+		case y < 77:
+			h = append(h, Item{T: "produce", Ts: tick(), Crash: true, K: r.Intn(8), E: r.Intn(2) == 0}, Item{T: "boot"})
+		case y < 85:
+			h = append(h, Item{T: "boot", Crash: true, K: r.Intn(3)}, Item{T: "boot"})
+		}
+	}
+	return cfg, h
+}
+
+// ---- concurrency: a reap inside a produce step; failing executions ------------------------------------------------------
+
+// genConc: the reaper keeps up with the producer (the queue holds 0..2 batches) and its SubmitTxs falls INTO produce
+// steps: 6..30 (thorough: ..70) rounds of: 0..2 transactions arrive, sometimes a reap, a produce step that — per-case
+// rates — has a reap in its middle (60/35%: after p = 1..8 of its acts, p = 1 most often; as early or as late as that
+// point allows), whose ExecuteTxs call fails (0/12%), or is plain; 5% restarts.  Then the drain.
+func genConc(r *mrand.Rand, tier string) (Cfg, []Item) {
+	cfg := Cfg{Max: []int{0, 1, 1, 2, 3, 1000}[r.Intn(6)], GOff: int64(r.Intn(3)) * 2500}
+	cur := cfg.GOff
+	tick := func() int64 { cur += int64(1 + r.Intn(3000)); return cur }
+	next := manyFirst
+	midPct := []int{60, 60, 35}[r.Intn(3)]
+	execPct := []int{0, 12, 12}[r.Intn(3)]
+	reapPct := []int{20, 50, 80}[r.Intn(3)]
+	rounds := 6 + r.Intn(25)
+	if tier == "thorough" {
+		rounds = 6 + r.Intn(65)
+	}
+	h := []Item{{T: "boot"}}
+	if r.Intn(4) > 0 {
+		h = append(h, Item{T: "produce", Ts: tick()})
+	}
+	for i := 0; i < rounds; i++ {
+		if n := []int{0, 1, 1, 1, 2}[r.Intn(5)]; n > 0 {
+			h = append(h, Item{T: "arrive", Tx: next, N: n})
+			next += n
+		}
+		if r.Intn(100) < reapPct {
+			h = append(h, Item{T: "reap"})
+			if r.Intn(3) == 0 {
+				h = append(h, Item{T: "arrive", Tx: next})
+				next++
+			}
+		}
+		p := Item{T: "produce", Ts: tick()}
+		switch y := r.Intn(100); {
+		case y < execPct:
+			p.X = true
+		case y < execPct+midPct:
+			p.Mid, p.E = midPoints[r.Intn(len(midPoints))], r.Intn(2) == 0
+		}
+		h = append(h, p)
+		if r.Intn(100) < 5 {
+			h = append(h, Item{T: "boot"})
+		}
+	}
+	return cfg, h
+}
+
+// ---- the count-boundary stream -----------------------------------------------------------------------------------------
+
+// the numbers of transactions around which ONE hand-off is sized (a per-batch or per-block transaction limit a
+// sequencing layer could apply); quick runs take the small ones more often
+var countLimits = []int{16, 64, 100, 128, 256, 500, 512, 1000, 1000, 1024}
+
+// genCount: block production is stalled or slow, so the queue (bound 2..5, sometimes none) is filled by small hand-offs
+// up to one or two free slots; then a burst of L-1 / L / L+1 / 2L-1 / 2L / 2L+1 / 2L+L/2 / 3L / 3L+1 transactions
+// (quick runs with L >= 500: up to 2L+1)
+// (consecutive ids from manyFirst) arrives and is handed off in ONE reap — accepted as one batch by the code as it is;
+// then produce and reap steps alternate (a mempool keeps listing a transaction until it is executed: a hand-off that
+// was refused is offered again in full), sometimes with a restart, sometimes with a second, smaller burst; then the drain.
+func genCount(r *mrand.Rand, tier string) (Cfg, []Item) {
+	L := countLimits[r.Intn(len(countLimits))]
+	if tier != "thorough" && L >= 500 && r.Intn(3) > 0 {
+		L = countLimits[r.Intn(5)]
+	}
+	cfg := Cfg{Max: []int{2, 3, 3, 4, 5, 0}[r.Intn(6)], GOff: int64(r.Intn(3)) * 2500}
+	cur := cfg.GOff
+	tick := func() int64 { cur += int64(1 + r.Intn(3000)); return cur }
+	h := []Item{{T: "boot"}}
+	if r.Intn(4) > 0 {
+		h = append(h, Item{T: "produce", Ts: tick()})
+	}
+	small := []int{2, 3, 4, 5, 6, 7, 8, 9}
+	r.Shuffle(len(small), func(i, j int) { small[i], small[j] = small[j], small[i] })
+	free := 1 + r.Intn(2)
+	fill := cfg.Max - free
+	if cfg.Max == 0 {
+		fill = r.Intn(3)
+	}
+	for i := 0; i < fill && i < len(small); i++ {
+		h = append(h, Item{T: "arrive", Tx: small[i]}, Item{T: "reap"})
+	}
+	next := manyFirst
+	burst := func(n int) {
+		h = append(h, Item{T: "arrive", Tx: next, N: n})
+		next += n
+	}
+	sizes := []int{L - 1, L, L + 1, 2*L - 1, 2 * L, 2*L + 1, 2*L + L/2, 3 * L, 3*L + 1}
+	if tier != "thorough" && L >= 500 {
+		sizes = sizes[:6] // the model's evaluation is quadratic in the size of a hand-off
+	}
+	burst(sizes[r.Intn(len(sizes))])
+	h = append(h, Item{T: "reap"})
+	steps := 3 + r.Intn(6)
+	for i := 0; i < steps; i++ {
+		switch y := r.Intn(100); {
+		case y < 45:
+			h = append(h, Item{T: "produce", Ts: tick()})
+		case y < 85:
+			h = append(h, Item{T: "reap"})
+		case y < 92:
+			h = append(h, Item{T: "boot"})
+		default:
+			burst(1 + r.Intn(L))
 		}
 	}
 	return cfg, h
@@ -1451,6 +1907,74 @@ func TestVerif(t *testing.T) {
 				}
 			}
 		}
+		if j.gen {
+			res.Count("stream:" + map[int]string{1: "backlog-restarts", 5: "concurrent-reaps-and-failing-executions", 7: "count-boundary", 3: "size-boundary", 9: "size-boundary"}[rp.Case%12])
+		}
+		// coverage of the new classes, measured on what the real code did
+		waitingNow, releasedSoFar := 0, 0
+		for i, it := range cr.hist {
+			o := cr.obs[i]
+			nput, ndel := 0, 0
+			for _, sh := range o.Writes {
+				if sh.K == "qput" && !sh.Failed {
+					nput++
+					n := len(sh.Txs)
+					switch {
+					case n <= 10:
+						res.Count("hand-off-count:1-10")
+					case n < 100:
+						res.Count("hand-off-count:11-99")
+					case n < 1000:
+						res.Count("hand-off-count:100-999")
+					case n == 1000:
+						res.Count("hand-off-count:1000")
+					case n < 2000:
+						res.Count("hand-off-count:1001-1999")
+					default:
+						res.Count("hand-off-count:2000+")
+					}
+					if n >= 100 {
+						free := "unbounded"
+						if rp.Cfg.Max > 0 {
+							free = fmt.Sprint(rp.Cfg.Max - waitingNow)
+						}
+						res.Count("hand-off-of-100+-transactions:free-queue-slots=" + free)
+					}
+				}
+				if sh.K == "qdel" {
+					ndel++
+				}
+			}
+			if it.T == "boot" && !it.Crash && o.Res == "boot-ok" && i > 0 {
+				w := waitingNow
+				if w > 3 {
+					w = 3
+				}
+				res.Count(fmt.Sprintf("restart:batches-waiting=%d%s:taken-before=%v", w, map[bool]string{true: "+", false: ""}[waitingNow > 3], releasedSoFar > 0))
+			}
+			if it.T == "produce" && it.X {
+				res.Count(fmt.Sprintf("exec-fail:%s:batch-in-hand=%v", o.Res, ndel > 0))
+			}
+			if it.T == "produce" && it.Mid > 0 && o.Res != "not-running" {
+				p := it.Mid
+				if p > 8 {
+					p = 8
+				}
+				when := "early"
+				if it.E {
+					when = "late"
+				}
+				res.Count(fmt.Sprintf("mid-reap:after-act-%d:%s", p, when))
+				if nput > 0 {
+					res.Count(fmt.Sprintf("mid-reap:handed-off-inside-the-step:step-took-a-batch=%v:queue-drained-by-the-step=%v", ndel > 0, ndel > 0 && waitingNow == 1))
+				}
+			}
+			waitingNow += nput - ndel
+			releasedSoFar += ndel
+			if waitingNow < 0 {
+				waitingNow = 0
+			}
+		}
 		crashFree := true
 		for i, it := range cr.hist {
 			k := "item:" + it.T
@@ -1458,6 +1982,12 @@ func TestVerif(t *testing.T) {
 				crashFree = false
 				k += "-crash"
 				res.Count(fmt.Sprintf("crash:%s-k=%d", it.T, it.K))
+			}
+			if it.X {
+				k += "-exec-fails"
+			}
+			if it.Mid > 0 {
+				k += "-with-reap-inside"
 			}
 			if it.Fault {
 				k += "-fault"
@@ -1543,7 +2073,7 @@ func TestVerif(t *testing.T) {
 		cr.w.Close()
 	}
 	res.Distinct = len(distinct)
-	res.Rule = "queue bound from {1,1,2,3,unlimited,1000}; optional first boot; 4..40 (quick) / 4..94 (thorough) items: 34% a transaction arrives (fresh bytes, or with a per-case probability of 0/5/25% bytes that arrived before; pool of 9 incl. the empty and a 20 kB transaction), 26% reap, 34% produce (clock +1..3000 ms, 8% equal, in a quarter of the cases 8% stepping back), 6% reboot; per-case crash rate 0/0/6/14% of the boots, reaps and produces, dying after k = 0..2 / 0..4 / 0..7 of their datastore writes (produce: with or without the ExecuteTxs call that follows the last durable write); per-case write-fault rate 0/0/0/12/24% of the remaining boots, reaps and produces: write attempt k = 0..1 / 0..4 / 0..6 (produce: early writes more often) returns an error once, the process lives on; corpus: a fault at every write of a batch-taking produce, of an empty produce, of a pending-block produce, of a hand-off and of a start-up; then the drain (boot if down, produce + reap rounds until nothing is in flight AND a produce on the quiet node has handed out nothing, restart of a node that refuses to produce with a validation error); size-boundary stream = every generated case with index = 3 mod 6 + corpus size-boundary-hand-offs-then-restart: the pool also holds 10 big transactions sized around a limit L from {1 500 000 (5/9), 2^20, 10^6, 2*10^6, 64*64*482} (L/3, L/3+-1, 3 x (L - L/3), L/15, L/2, L/2+7, L+1 bytes); 70% structured: boot, a block, 1..3 rounds of ONE hand-off totalling L-1 / L / L+1 (60%, often plus one or two small transactions anywhere in it), the pair plus a third big one (20%), big extras only (10%), a small control batch (10%), 30% a second small hand-off behind it, the produce that takes it (6% dying after k = 0..7 writes, 6% write fault), then 45% clean restart / 12% the next produce dies / 7% a start-up dies / 6% reap + restart / 30% nothing, then one or two more produces; 30%: the generic mix with the 19 pool ids arriving in a random order; non-trivial = at least one hand-off and one non-empty committed block; distinct = distinct (configuration, history)"
+	res.Rule = "streams by case index mod 12: 1 = restarts while batches wait (2..4 lives of 1..4 hand-offs of 1..3 fresh transactions, fewer produces than waiting batches, then clean restart 55% / crash in reap, produce or start-up + restart 30% / nothing; bounds none,1000,5,4,3), 5 = concurrency (6..30 rounds of arrivals, optional reap, a produce that has a complete reap in its middle after p = 1..8 of its acts (p = 1, right after the sequencer's answer, a third of the time; early or late at that point) at a per-case rate of 35/60%, or whose ExecuteTxs call fails at 0/12%; bounds none,1,1,2,3,1000), 7 = count boundary (queue bound 2..5 or none filled to 1..2 free slots by small hand-offs, then ONE hand-off of L-1, L, L+1, 2L-1, 2L, 2L+1, 2.5L, 3L or 3L+1 transactions for L from {16,64,100,128,256,500,512,1000,1024}, then 3..8 produce / reap / restart / further-burst steps), 3 and 9 = size boundary (below); every other index = the generic mix, in which a quarter of the cases let 10% of the plain produces fail at ExecuteTxs and half of the cases give 10/25% of them a reap in the middle.  Corpus: + exec-failure-and-concurrent-reap-at-every-point, hand-off-of-1100-against-an-almost-full-queue.  Oracle: + every accepted hand-off (durable record) is released in acceptance order, a second time only after a failed record Delete; a batch dropped by a step that died AFTER calling ExecuteTxs is not attributed to the listed crash window.  GENERIC MIX: queue bound from {1,1,2,3,unlimited,1000}; optional first boot; 4..40 (quick) / 4..94 (thorough) items: 34% a transaction arrives (fresh bytes, or with a per-case probability of 0/5/25% bytes that arrived before; pool of 9 incl. the empty and a 20 kB transaction), 26% reap, 34% produce (clock +1..3000 ms, 8% equal, in a quarter of the cases 8% stepping back), 6% reboot; per-case crash rate 0/0/6/14% of the boots, reaps and produces, dying after k = 0..2 / 0..4 / 0..7 of their datastore writes (produce: with or without the ExecuteTxs call that follows the last durable write); per-case write-fault rate 0/0/0/12/24% of the remaining boots, reaps and produces: write attempt k = 0..1 / 0..4 / 0..6 (produce: early writes more often) returns an error once, the process lives on; corpus: a fault at every write of a batch-taking produce, of an empty produce, of a pending-block produce, of a hand-off and of a start-up; then the drain (boot if down, produce + reap rounds until nothing is in flight AND a produce on the quiet node has handed out nothing, restart of a node that refuses to produce with a validation error); size-boundary stream = every generated case with index = 3 mod 6 + corpus size-boundary-hand-offs-then-restart: the pool also holds 10 big transactions sized around a limit L from {1 500 000 (5/9), 2^20, 10^6, 2*10^6, 64*64*482} (L/3, L/3+-1, 3 x (L - L/3), L/15, L/2, L/2+7, L+1 bytes); 70% structured: boot, a block, 1..3 rounds of ONE hand-off totalling L-1 / L / L+1 (60%, often plus one or two small transactions anywhere in it), the pair plus a third big one (20%), big extras only (10%), a small control batch (10%), 30% a second small hand-off behind it, the produce that takes it (6% dying after k = 0..7 writes, 6% write fault), then 45% clean restart / 12% the next produce dies / 7% a start-up dies / 6% reap + restart / 30% nothing, then one or two more produces; 30%: the generic mix with the 19 pool ids arriving in a random order; non-trivial = at least one hand-off and one non-empty committed block; distinct = distinct (configuration, history)"
 	res.Cases = len(cases)
 	header := "From Coq Require Import NArith ZArith List Bool.\nFrom Verif Require Import Model.Reaper Check.ReaperCheck."
 	path := filepath.Join(e.Out, "cases_C11.v")
